@@ -49,7 +49,7 @@ theorem req_flips_shape_only {T : Tun} (hT : TunOK T) (F : SecFns ρ) (ops : Lis
           simp only [shapeOf, h.1.lg, h.1.len, h.1.ss, h.1.ns, h.1.state, h.1.sorted, h.1.hra]
     exact this _ _ hr.1.cs
 
-example : (run genTun (⟨fun _ => (), id, fun _ => 0⟩ : SecFns Unit) ([.new 0 4 false] ++ (List.range 60).map (fun i => Op.upd 0 (Int.ofNat (i * 7 % 31)))) [true, false, true]).2.used = 3 := by
+example : (run genTun (⟨fun _ => (), id, fun _ => 0⟩ : SecFns Unit) ([.new 0 4 false] ++ (List.range 60).map (fun i => Op.upd 0 (Int.ofNat (i * 7 % 31)))) [true, false, true]).2.used = 1 := by
   decide +kernel
 
 /-- compaction_balanced: the two halves a compaction can promote together are the compacted run, for every predicate on items
@@ -130,13 +130,13 @@ theorem req_unbiased_rank {T : Tun} (hT : TunOK T) (F : SecFns ρ) (ops : List O
       = 2 ^ (run T F ops []).2.used * (items.filter (fun x => if inclusive then decide (x ≤ y) else decide (x < y))).length :=
   req_unbiased_partial hT F ops id items hin hno _
 
-/-- non-vacuity: a two-sketch history with a merge and five coins satisfies the hypothesis -/
+/-- non-vacuity: a two-sketch history with a merge and four coins satisfies the hypothesis -/
 example : (run genTun (⟨fun _ => (), id, fun _ => 0⟩ : SecFns Unit)
     ([.new 0 4 true, .new 1 4 true] ++ (List.range 40).map (fun i => Op.upd 0 (Int.ofNat (i * 5 % 17))) ++
      (List.range 40).map (fun i => Op.upd 1 (Int.ofNat (i * 3 % 23))) ++ [.merge 0 1] ++ (List.range 30).map (fun i => Op.upd 0 (Int.ofNat i))) []).2.oddConst = false
     ∧ (run genTun (⟨fun _ => (), id, fun _ => 0⟩ : SecFns Unit)
     ([.new 0 4 true, .new 1 4 true] ++ (List.range 40).map (fun i => Op.upd 0 (Int.ofNat (i * 5 % 17))) ++
-     (List.range 40).map (fun i => Op.upd 1 (Int.ofNat (i * 3 % 23))) ++ [.merge 0 1] ++ (List.range 30).map (fun i => Op.upd 0 (Int.ofNat i))) []).2.used = 5 := by
+     (List.range 40).map (fun i => Op.upd 1 (Int.ofNat (i * 3 % 23))) ++ [.merge 0 1] ++ (List.range 30).map (fun i => Op.upd 0 (Int.ofNat i))) []).2.used = 4 := by
   decide +kernel
 
 end DS.Req
